@@ -91,9 +91,11 @@ def gen_valid_records(rng, curie_pool, uri_pool, n, with_pattern=True, max_syn=2
 
 
 def swapcase_variant(s):
-    t = s.swapcase()
-    if t != s and t.casefold() == s.casefold() and t.isascii():
-        return t
+    """A differently-cased spelling of ``s`` that EVERY legitimate case folding equates with it (lower(),
+    casefold() and upper() all agree), or None. "maß" -> "Maß" (not "MASS"); "ς" -> None."""
+    for t in (s.swapcase(), s[:1].swapcase() + s[1:]):
+        if t != s and t.casefold() == s.casefold() and t.lower() == s.lower() and t.upper() == s.upper():
+            return t
     return None
 
 
@@ -105,6 +107,7 @@ class C05Machine(Machine):
         "empty_prefix_token", "empty_uri_prefix_token", "start_from_chain", "start_from_subconverter",
         "retry_rejected_now_accepted", "retry_rejected_again_rejected", "other_side_of_rejected_appended", "other_side_of_rejected_merged_elsewhere",
         "start_from_reconciliation", "submission_with_own_case_variants", "large_converter", "merge_into_record_past_position_256", "flag_left_to_its_default", "big_submission", "synonym_repeated_in_own_record", "start_converter_not_observed", "call_not_observed", "catch_up_observation", "focus_on_unmentioned_name_of_merge_target", "irregular_submission_refused", "irregular_submission_accepted",
+        "single_key_asked_last_before_and_first_after", "flood_of_lookups", "flood_of_more_than_2048_lookups",
     ]
 
     @classmethod
@@ -127,6 +130,8 @@ class C05Machine(Machine):
         # how often the converter is looked at: usually after every call, sometimes only every k-th call
         # or only at the end of the history (lazily built structures must also be right when COLD)
         cfg["observe_every"] = rng.choice([1, 1, 1, 1, 1, 2, 3, 99])
+        # a flood of distinct throw-away lookups at some point of the history (bounded caches, generations)
+        cfg["flood"] = rng.choice([600, 2600, 7000, 13000]) if rng.random() < (0.04 if tier == "quick" else 0.07) else 0
         large = rng.random() < (0.02 if tier == "quick" else 0.06)
         cfg["large"] = large
         # very rarely a HUGE converter: past 256 records (CPython's small-int cache, one-byte counters, ...)
@@ -177,12 +182,16 @@ class C05Machine(Machine):
         self.dirty = False        # calls were made since the converter was last looked at
         self.n_calls = 0
         self.started = False
+        self.flood_done = False
+        self.flood_sample = []
 
     # ----------------------------------------------------------- generation
     def gen_op(self, rng):
         cfg = self.config
         if not self.started:
             return self._gen_start(rng)
+        if cfg.get("flood") and not self.flood_done and self.n_calls >= 1 and rng.random() < 0.35:
+            return {"op": "flood", "n": cfg["flood"]}
         kind = "add_prefix" if rng.random() < cfg["p_add_prefix"] else "add_record"
         rel = self._pick_relation(rng)
         if rel == "retry_rejected":
@@ -424,6 +433,10 @@ class C05Machine(Machine):
                 yield dict(copy.deepcopy(op), kind="ctor")
             if op.get("delimiter") != ":":
                 yield dict(copy.deepcopy(op), delimiter=":")
+        if op["op"] == "flood":
+            for n2 in (600, 2600, 7000):
+                if n2 < op["n"]:
+                    yield dict(op, n=n2)
         if op["op"] in ("add_record", "add_prefix"):
             r = op["record"]
             for k2 in ("uri_prefix_synonyms", "prefix_synonyms"):
@@ -517,6 +530,8 @@ class C05Machine(Machine):
             return self._start(op)
         if not self.started:
             self._start({"op": "start", "kind": "empty", "delimiter": self.config["delimiter"]})
+        if op["op"] == "flood":
+            return self._flood(op)
         c = self.curies
         conv = self.conv
         rd = op["record"]
@@ -537,9 +552,10 @@ class C05Machine(Machine):
                 robj = c.Record(**(rd if op["op"] == "add_record" else dict(rd, pattern=None)))
             except Exception as e:  # noqa: BLE001
                 cerr = e
-        if cerr is not None and not irr:
+        if cerr is not None and (not irr or op["op"] == "add_record"):
+            # (an irregular submission to add_prefix is still made: the library builds that Record itself)
             self.event("submission_not_constructible_as_Record")
-            return {"result": "not_a_record", "exception": type(cerr).__name__}
+            return {"result": "not_a_record"}
         if robj is not None:
             rd = observe.record_dump(robj)
         mrec = MRecord.from_dump(rd)
@@ -588,16 +604,21 @@ class C05Machine(Machine):
         # method is the very last thing asked before the call and the very first thing asked after it
         single = self._single_key(rd, d)
         pre_single = observe.callm(conv, single[0], *single[1], **single[2])
+        # records, views and index dictionaries are read immediately before and immediately after the call,
+        # with no lookup of the harness in between (what a lookup does to them is not the call's doing)
+        pre_struct = observe.structure(conv)
         err = self._call(op, robj, cerr, cs, merge)
+        post_struct = observe.structure(conv)
         post_single = observe.callm(conv, single[0], *single[1], **single[2])
         self.single = (single, post_single)
         self.probe("single_key_asked_last_before_and_first_after")
 
         before_tokens_c = set(self.model.all_curie_tokens())
         before_tokens_u = set(self.model.all_uri_tokens())
+        saved_model = copy.deepcopy(self.model) if err is not None else None
         if irr:
             self.probe("irregular_submission_" + ("refused" if err is not None else "accepted"))
-            if err is not None and isinstance(err, ValueError):
+            if err is not None and (isinstance(err, ValueError) or cerr is not None):
                 outcome, target = "reject_irregular", None        # refusing it is fine; nothing may have changed
             else:
                 cleaned = MRecord(mrec.prefix, mrec.uri_prefix, mrec.prefix_synonyms - {mrec.prefix},
@@ -606,6 +627,13 @@ class C05Machine(Machine):
                 outcome, target = self.model.add(cleaned, cs, merge)
         else:
             outcome, target = self.model.add(mrec, cs, merge)
+        if isinstance(err, ValueError) and not outcome.startswith("reject") and self._refused_on_its_own(op, robj, cs, merge):
+            # refused although it matches nothing - and an EMPTY converter with the same delimiter refuses it
+            # too: the reason lies in the submission itself (a validation the property does not regulate),
+            # not in the records. Nothing may have changed.
+            self.model = saved_model
+            outcome, target = "reject_own_reason", None
+            self.probe("refused_for_a_reason_of_its_own")
         self.event(op["op"])
         self.event("model_" + outcome)
         if op.get("omit_defaults") and (cs is True or merge is False):
@@ -616,12 +644,15 @@ class C05Machine(Machine):
         post = self._snapshot()
 
         if err is not None:
-            if not isinstance(err, ValueError):
+            if not isinstance(err, ValueError) and not (cerr is not None and type(err) is type(cerr)):
+                # (the class with which the Record class itself refuses a submission is not judged)
                 raise Violation(PROP, "wrong_exception", site, {"exception": type(err).__name__, "op": op})
-            if post != pre or post_focus != pre_focus or post_single != pre_single:
+            if post_struct != pre_struct or post["answers"] != pre["answers"] or post_focus != pre_focus or post_single != pre_single:
                 raise Violation(PROP, "rejected_changed_state", site,
                                 {"exception": type(err).__name__,
-                                 "diff": observe.diff(pre, post) or observe.diff(pre_focus, post_focus)
+                                 "diff": observe.diff(pre_struct, post_struct, path="/structure")
+                                 or observe.diff(pre["answers"], post["answers"], path="/answers")
+                                 or observe.diff(pre_focus, post_focus)
                                  or [{"lookup": [single[0], list(single[1])], "before": pre_single, "after": post_single}],
                                  "op": op})
             if not outcome.startswith("reject"):
@@ -629,13 +660,14 @@ class C05Machine(Machine):
                 raise Violation(PROP, "accept_reject_mismatch", site,
                                 {"real": "rejected:" + type(err).__name__, "model": outcome, "op": op})
             self.n_reject += 1
-            if outcome not in ("reject_invalid", "reject_irregular") and not op.get("same_object"):
+            if outcome not in ("reject_invalid", "reject_irregular", "reject_own_reason") and not op.get("same_object"):
                 self.rejected.append({"op": op["op"], "record": copy.deepcopy(op["record"]),
                                       "case_sensitive": cs, "merge": merge})
             if op.get("relation") == "retry_rejected":
                 self.probe("retry_rejected_again_rejected")
             self.fault("rejected_call")
-            self.probe(outcome)
+            if outcome != "reject_own_reason":
+                self.probe(outcome)
             result = "rejected"
         else:
             if outcome.startswith("reject"):
@@ -686,6 +718,61 @@ class C05Machine(Machine):
         self.note_state(self.model.keys(), op["op"], outcome)
         return {"result": result, "model": outcome, "snap": observe.stable_digest(post)}
 
+    def _flood(self, op):
+        """Thousands of distinct throw-away lookups through every kind of query (what converting a big
+        column does); a spread of them is asked again - of the live and of the fresh converter - after
+        every later observed call."""
+        self.flood_done = True
+        conv, d = self.conv, self.delimiter0
+        cp, up = self.config["curie_pool"], self.config["uri_pool"]
+        cm = [("expand", {}), ("expand_all", {}), ("standardize_curie", {}), ("is_curie", {}), ("parse_curie", {}),
+              ("expand_or_standardize", {})]
+        um = [("compress", {}), ("parse_uri", {"return_none": True}), ("is_uri", {}), ("standardize_uri", {}),
+              ("compress_or_standardize", {})]
+        asked = []
+        for i in range(int(op["n"])):
+            if i % 3 == 0:
+                m, kw = um[(i // 3) % len(um)]
+                q = (m, (up[i % len(up)] + "f" + str(i),), kw)
+            elif i % 3 == 1:
+                m, kw = cm[(i // 3) % len(cm)]
+                q = (m, (cp[i % len(cp)] + d + "f" + str(i),), kw)
+            else:
+                q = [("get_record", (cp[i % len(cp)] + "f" + str(i),), {}), ("expand_pair", (cp[i % len(cp)], "f" + str(i)), {}),
+                     ("expand_pair_all", (cp[i % len(cp)], "f" + str(i)), {})][(i // 3) % 3]
+            observe.callm(conv, q[0], *q[1], **q[2])
+            asked.append(q)
+        step = max(1, len(asked) // 40)
+        self.flood_sample = asked[::step] + asked[:6] + asked[-6:]
+        self.probe("flood_of_lookups")
+        if len(asked) > 2048:
+            self.probe("flood_of_more_than_2048_lookups")
+        if not self.dirty:
+            self._check_consistent(self.snap, "flood of lookups", submitted=None, target=None)
+        return {"flood": len(asked)}
+
+    def _refused_on_its_own(self, op, robj, cs, merge):
+        """Does a converter WITHOUT records (same delimiter) refuse the same call with a ValueError too?"""
+        c = self.curies
+        try:
+            empty = c.Converter([], delimiter=self.delimiter0)
+        except Exception:  # noqa: BLE001
+            return False
+        rd = op["record"]
+        try:
+            if op["op"] == "add_record":
+                if robj is None:
+                    return False
+                empty.add_record(c.Record(**observe.record_dump(robj)), **flag_kwargs(op, cs, merge))
+            else:
+                empty.add_prefix(rd["prefix"], rd["uri_prefix"], prefix_synonyms=list(rd["prefix_synonyms"]),
+                                 uri_prefix_synonyms=list(rd["uri_prefix_synonyms"]), **flag_kwargs(op, cs, merge))
+        except ValueError:
+            return True
+        except Exception:  # noqa: BLE001
+            return False
+        return False
+
     def _single_key(self, rd, d):
         """(method, args, kwargs): one query about one name of the submission, rotating with the call count."""
         combos = []
@@ -728,8 +815,9 @@ class C05Machine(Machine):
         """A call after which the converter is NOT looked at: only accept / reject is judged now; what
         the call did to the converter is judged at the next observation (catch-up)."""
         err = self._call(op, robj, cerr, cs, merge)
+        saved_model = copy.deepcopy(self.model) if err is not None else None
         if irr:
-            if err is not None and isinstance(err, ValueError):
+            if err is not None and (isinstance(err, ValueError) or cerr is not None):
                 outcome = "reject_irregular"
             else:
                 mrec = MRecord(mrec.prefix, mrec.uri_prefix, mrec.prefix_synonyms - {mrec.prefix},
@@ -737,12 +825,16 @@ class C05Machine(Machine):
                 outcome, _ = self.model.add(mrec, cs, merge)
         else:
             outcome, _ = self.model.add(mrec, cs, merge)
+        if isinstance(err, ValueError) and not outcome.startswith("reject") and self._refused_on_its_own(op, robj, cs, merge):
+            self.model = saved_model
+            outcome = "reject_own_reason"
+            self.probe("refused_for_a_reason_of_its_own")
         self.event(op["op"])
         self.event("model_" + outcome)
         self.probe("call_not_observed")
         self.dirty = True
         self.snap = None
-        if err is not None and not isinstance(err, ValueError):
+        if err is not None and not isinstance(err, ValueError) and not (cerr is not None and type(err) is type(cerr)):
             raise Violation(PROP, "wrong_exception", site, {"exception": type(err).__name__, "op": op})
         if (err is not None) != outcome.startswith("reject"):
             raise Violation(PROP, "accept_reject_mismatch", site,
@@ -750,7 +842,7 @@ class C05Machine(Machine):
         if err is not None:
             self.n_reject += 1
             self.fault("rejected_call")
-            if outcome not in ("reject_invalid", "reject_irregular"):
+            if outcome not in ("reject_invalid", "reject_irregular", "reject_own_reason"):
                 self.rejected.append({"op": op["op"], "record": copy.deepcopy(op["record"]),
                                       "case_sensitive": cs, "merge": merge})
         elif outcome == "merge_new":
@@ -794,7 +886,9 @@ class C05Machine(Machine):
             raise Violation(PROP, "delimiter_changed", site,
                             {"started_with": self.delimiter0, "now": conv.delimiter, "op": op})
         try:
-            fresh = c.Converter([c.Record(**d) for d in copy.deepcopy(dumps)], delimiter=self.delimiter0)
+            # (copies of the record OBJECTS: "constructed from its current records", not from data that has to
+            # pass the Record validators once more)
+            fresh = c.Converter([copy.deepcopy(r) for r in conv.records], delimiter=self.delimiter0)
         except Exception as e:  # noqa: BLE001
             raise Violation(PROP, "fresh_construct_failed", site, {"exception": type(e).__name__, "op": op})
         fsnap = observe.snapshot(fresh, self.strings, self.pairs, full=True, ordered=False)
@@ -813,6 +907,11 @@ class C05Machine(Machine):
                 if want != got:
                     raise Violation(PROP, "fresh_mismatch", site,
                                     {"first_lookup_after_the_call": [m, list(a)], "fresh": want, "live": got, "op": op})
+        for m, a, kw in self.flood_sample:
+            got, want = observe.callm(conv, m, *a, **kw), observe.callm(fresh, m, *a, **kw)
+            if got != want:
+                raise Violation(PROP, "fresh_mismatch", site,
+                                {"lookup_from_an_earlier_flood": [m, list(a)], "fresh": want, "live": got, "op": op})
         # oracle 5: every prefix / URI prefix of the submission resolves to one record
         if submitted is not None and target is not None:
             t = target.prefix
